@@ -1,5 +1,6 @@
 (* C08 - Activating and reading arbitrary tags terminates safely.
-   Only statements here; proofs are in Proofs/TagSafeAct.v, TagSafeTlv.v, TagSafeBlk.v, TagSafeDep.v.
+   Only statements here; proofs are in Proofs/TagSafeAct.v, TagSafeTlv.v, TagSafeCmd.v, TagSafeIface.v (the facts about the
+   shared models of T3T.v / T4T.v / IsoDep.v that TagSafeBlk.v uses), TagSafeBlk.v, TagSafeDep.v.
    Models: Model/TagAct.v (activation), Model/TagReadAny.v (Type 1/2 readers = Model/T2T.v, T1T.v after the repairs
    fixes/c08-12..16), Model/TagReadAnyB.v (Type 3/4 readers after the repairs fixes/c08-03..10 over a scripted
    responder, re-using the parts of Model/T3T.v, T4T.v, IsoDep.v that did not change).
@@ -12,7 +13,7 @@
 From Coq Require Import ZArith List Bool.
 From NV Require Import Base.Result Base.Bytes Model.TlvMem Model.T2T Model.T1T Model.IsoDep Model.T3T Model.T4T
   Model.TagAct Model.TagReadAny Model.TagReadAnyB
-  Proofs.IsoDepStream Proofs.TagSafeAct Proofs.TagSafeTlv Proofs.TagSafeCmd Proofs.TagSafeBlk Proofs.TagSafeDep.
+  Proofs.IsoDepStream Proofs.TagSafeAct Proofs.TagSafeTlv Proofs.TagSafeCmd Proofs.TagSafeIface Proofs.TagSafeBlk Proofs.TagSafeDep.
 Import ListNotations.
 Open Scope Z_scope.
 
